@@ -144,3 +144,16 @@ def register_update(R):
                           "havoc_locals": ["mins", "maxes", "f", "reference_variable", "test_variable"], "invariant": []},
                       1: {"index": "k1", "types": {"feature_distances": "Opaque[AnyList]"},
                           "havoc_locals": ["feature_distances", "total_distance", "f", "f_distance"], "invariant": []}})
+
+    R.contract(M + ".set_reference", tags=("C07", "C02"), on_self="HDDDM", params={"X": "RawX", "y_true": "RawY", "y_pred": "RawY"},
+               reads_not=["y_true", "y_pred"], reads_not_tags=("C16",),
+               calls={M + ".reset": "contract"},
+               requires=["self.detect_batch != 1"],
+               raises={"ValueError": {"when": B_REJECT, "iff": True, "tags": "C14", "ensures": [("C14", "unchanged(self)")]}},
+               ensures=["len(self.reference) == brows(X) and self.reference_n == brows(X) and self._bins == floor(sqrt(self.reference_n))",
+                        # the statistics restart from this batch: epoch counter, epsilons, last-drift index
+                        "self._batches_since_reset == 0 and self._drift_state is None and len(self.epsilon) == 0 and "
+                        "self.total_epsilon == 0 and self._lambda == self._total_batches",
+                        "unchanged(self._total_batches)"],
+               modifies=["_batches_since_reset", "_drift_state", "_input_cols", "_input_col_dim", "epsilon", "total_epsilon",
+                         "reference_n", "_bins", "reference", "_lambda"])
